@@ -191,7 +191,7 @@ fn c02_strategy(ctx: &Ctx) -> BoxedStrategy<SeqCase> {
   let max_ops = ctx.tier.pick(4, 6);
   (gen::chain(&cfg, 1, max_ops), 0u64..4)
     .prop_map(|(root, hash_seed)| SeqCase {
-      case: Case { root, hots: vec![], hot_illformed: false, conn: None, conn_take: None, recorders: vec![vec![]], actions: vec![Action::Subscribe(0)] },
+      case: Case { root, hots: vec![], hot_illformed: false, conn: None, conn_take: None, conn_take_only: None, recorders: vec![vec![]], actions: vec![Action::Subscribe(0)] },
       hash_seed,
     })
     .boxed()
@@ -203,7 +203,7 @@ fn c02_large_strategy(ctx: &Ctx) -> BoxedStrategy<SeqCase> {
   let cfg = GenCfg { big: true, max_script: 60, ..c02_cfg(ctx) };
   (gen::chain(&cfg, 1, 3), 0u64..4)
     .prop_map(|(root, hash_seed)| SeqCase {
-      case: Case { root, hots: vec![], hot_illformed: false, conn: None, conn_take: None, recorders: vec![vec![]], actions: vec![Action::Subscribe(0)] },
+      case: Case { root, hots: vec![], hot_illformed: false, conn: None, conn_take: None, conn_take_only: None, recorders: vec![vec![]], actions: vec![Action::Subscribe(0)] },
       hash_seed,
     })
     .boxed()
@@ -262,7 +262,7 @@ fn c02_reentrant_strategy(ctx: &Ctx) -> BoxedStrategy<SeqCase> {
       let mut actions = vec![Action::Subscribe(0)];
       actions.extend(script.into_iter().map(|e| Action::Emit(0, e)));
       SeqCase {
-        case: Case { root, hots: vec![HotKind::Harness], hot_illformed: false, conn: None, conn_take: None, recorders: vec![reactions], actions },
+        case: Case { root, hots: vec![HotKind::Harness], hot_illformed: false, conn: None, conn_take: None, conn_take_only: None, recorders: vec![reactions], actions },
         hash_seed,
       }
     })
@@ -489,7 +489,7 @@ fn c03_seq_eq_strategy(ctx: &Ctx) -> BoxedStrategy<SeqCase> {
       }
       root.renumber();
       SeqCase {
-        case: Case { root, hots: vec![], hot_illformed: false, conn: None, conn_take: None, recorders: vec![vec![]], actions: vec![Action::Subscribe(0)] },
+        case: Case { root, hots: vec![], hot_illformed: false, conn: None, conn_take: None, conn_take_only: None, recorders: vec![vec![]], actions: vec![Action::Subscribe(0)] },
         hash_seed,
       }
     })
@@ -578,7 +578,7 @@ fn c03_switch_strategy(_ctx: &Ctx) -> BoxedStrategy<SeqCase> {
           hots: vec![HotKind::Harness, HotKind::Harness],
           hot_illformed: false,
           conn: None,
-          conn_take: None,
+          conn_take: None, conn_take_only: None,
           recorders: vec![vec![]],
           actions,
         },
@@ -677,7 +677,7 @@ pub(crate) fn c03_rsg_strategy(ctx: &Ctx) -> BoxedStrategy<SeqCase> {
       let mut actions = vec![Action::Subscribe(0)];
       actions.extend(later.into_iter().map(|e| Action::Emit(0, e)));
       SeqCase {
-        case: Case { root, hots: vec![HotKind::Harness], hot_illformed: false, conn: None, conn_take: None, recorders: vec![vec![]], actions },
+        case: Case { root, hots: vec![HotKind::Harness], hot_illformed: false, conn: None, conn_take: None, conn_take_only: None, recorders: vec![vec![]], actions },
         hash_seed,
       }
     })
@@ -848,7 +848,7 @@ fn c04_hot_strategy(_ctx: &Ctx) -> BoxedStrategy<SeqCase> {
       let mut actions = vec![Action::Subscribe(0)];
       actions.extend(script.into_iter().map(|e| Action::Emit(0, e)));
       SeqCase {
-        case: Case { root, hots: vec![kind], hot_illformed: false, conn: None, conn_take: None, recorders: vec![vec![]], actions },
+        case: Case { root, hots: vec![kind], hot_illformed: false, conn: None, conn_take: None, conn_take_only: None, recorders: vec![vec![]], actions },
         hash_seed,
       }
     })
@@ -895,7 +895,7 @@ fn c04_mixed_strategy(_ctx: &Ctx) -> BoxedStrategy<SeqCase> {
       let mut actions = vec![Action::Subscribe(0)];
       actions.extend(script.into_iter().map(|e| Action::Emit(0, e)));
       SeqCase {
-        case: Case { root, hots: vec![HotKind::Harness], hot_illformed: false, conn: None, conn_take: None, recorders: vec![vec![]], actions },
+        case: Case { root, hots: vec![HotKind::Harness], hot_illformed: false, conn: None, conn_take: None, conn_take_only: None, recorders: vec![vec![]], actions },
         hash_seed,
       }
     })
